@@ -115,6 +115,22 @@ def handle1 : List String → String
     | some txs =>
       s!"r={hexBA (mroot H zeroHash (leaves false txs))} w={hexBA (mroot H zeroHash (leaves true txs))} again=1"
     | none => "bad-op"
+  | ["radd", n, roots, h] =>
+    match n.toNat?, parseList "," hexToList? roots, hexToList? h with
+    | some n, some roots, some h =>
+      -- the Go slice grows at its end; the model keeps the top of the stack first
+      match (⟨(roots.map toBA).reverse, n⟩ : Roll ByteArray).add H (toBA h) with
+      | some s => s!"n={s.numLeaves} roots={",".intercalate (s.roots.reverse.map hexBA)}"
+      | none => "panic"
+    | _, _, _ => "bad-op"
+  | ["shh", v] =>
+    match v.toInt? with
+    | some v => b01 (shouldHaveSerializedBlockHeight v)
+    | none => "bad-op"
+  | ["smallint", op] =>
+    match op.toNat? with
+    | some op => if isSmallInt op then s!"is=1 as={asSmallInt op}" else "is=0"
+    | none => "bad-op"
   | ["hmb", l, r] =>
     match hexToList? l, hexToList? r with
     | some l, some r => hexBA (H (toBA l) (toBA r))
